@@ -479,8 +479,15 @@ var readOnlyAPI = []string{
 }
 
 func checkC19(c *Ctx) {
+	c.rulePure(readOnlyAPI)
+	c.R.Floor("E.pure", 24)
+}
+
+// rulePure: each listed read-only operation writes nothing reachable from its
+// receiver or package state.
+func (c *Ctx) rulePure(specs []string) {
 	a := &effAnalysis{c: c, unknown: map[string]string{}, visited: map[string]bool{}, funcs: map[*ssa.Function]bool{}}
-	for _, spec := range readOnlyAPI {
+	for _, spec := range specs {
 		fn := c.FnOpt(spec)
 		if fn == nil {
 			// value/pointer receiver variants: the method may have moved between them
@@ -535,5 +542,4 @@ func checkC19(c *Ctx) {
 	for f := range a.funcs {
 		c.R.Funcs[name(f)] = true
 	}
-	c.R.Floor("E.pure", 24)
 }
